@@ -199,7 +199,7 @@ def run(ctx):
     ubl = out.split("END\n")
     if rc != 0 or len(ubl) < len(ucmds) + 1:
         k = max(0, min(len(ubl) - 1, len(ucmds) - 1))
-        ctx.violation({"kind": "K:crs-transpose", "command": ucmds[k], "stderr": err[-1500:], "rc": rc}, "sparse harness died (sanitizer report / crash) in transpose at: %s" % ucmds[k][:150])
+        ctx.violation({"kind": "K:crs-transpose", "command": ucmds[k], "stderr": err[-1500:], "rc": rc}, "sparse harness died (sanitizer report / crash) in transpose / Envelope::set of a raw storage at: %s" % ucmds[k][:150])
     else:
         def rawparse(tok):
             nr = int(tok[0]); p = 1; rows = []
@@ -216,6 +216,18 @@ def run(ctx):
                 uparsed.append(None); uterms.append("(%d%%nat, %s, [], [])" % (n, crsl(rows)))
                 continue
             T, TT = rawparse(d["RT"]), rawparse(d["RTT"])
+            # Envelope::set on the same storage: the normal matrix A'A of the dense matrix (repeated indices sum), exact for
+            # these small dyadic values
+            from fractions import Fraction as Fr_
+            Ad = [[Fr_(0)] * n for _ in rows]
+            for i_, r_ in enumerate(rows):
+                for c_, v_ in r_:
+                    Ad[i_][c_ - 1] += Fr_(v_)
+            wantN = [sum(Ad[k][i_] * Ad[k][j_] for k in range(len(rows))) for i_ in range(n) for j_ in range(i_ + 1)]
+            gotN = [Fr_(float.fromhex(t)) for t in d.get("EN", ["0"])[1:]]
+            if gotN != wantN:
+                ctx.violation({"kind": "K:envelope-set", "columns": n, "storage": rows, "normal_matrix_lower": [str(x) for x in wantN], "envelope": [str(x) for x in gotN]},
+                              "Envelope::set: the normal matrix of a %dx%d storage differs from A'A (repeated column indices: %s)" % (len(rows), n, any(len({c for c, _ in r}) < len(r) for r in rows)))
             uparsed.append((T, TT))
             uterms.append("(%d%%nat, %s, %s, %s)" % (n, crsl(rows), crsl(T), crsl(TT)))
         v = "From Coq Require Import List QArith ZArith.\nFrom Gama Require Import CrsModel.\nImport ListNotations.\nClose Scope Q_scope.\n" \
